@@ -79,16 +79,27 @@ impl Source for MioListener {
         match *self {
             MioListener::Tcp(ref mut lst) => lst.deregister(registry),
             #[cfg(unix)]
-            MioListener::Uds(ref mut lst) => {
-                let res = lst.deregister(registry);
+            MioListener::Uds(ref mut lst) => lst.deregister(registry),
+        }
+    }
+}
 
-                // cleanup file path
+impl MioListener {
+    /// Remove the socket file of a Unix domain listener.
+    ///
+    /// Called when the server stops listening for good. It must not happen on `deregister`, which
+    /// is also used to pause accepting temporarily (pause/resume, back-off after accept errors):
+    /// without its path a listener can never be connected to again.
+    pub(crate) fn cleanup(&self) {
+        match *self {
+            MioListener::Tcp(_) => {}
+            #[cfg(unix)]
+            MioListener::Uds(ref lst) => {
                 if let Ok(addr) = lst.local_addr() {
                     if let Some(path) = addr.as_pathname() {
                         let _ = std::fs::remove_file(path);
                     }
                 }
-                res
             }
         }
     }
